@@ -34,47 +34,84 @@ type Barrier struct {
 	Edge  EdgeSpec
 }
 
-// atomHolds: does the branch condition c (already reduced by Truthy to atom a
-// with polarity pol) decide the atom matched by p?  Besides the direct match it
-// recognises boolean phis of short-circuit expressions: for x := a || b … the
-// false edge of x implies every non-constant operand false; for x := a && b …
-// the true edge implies every non-constant operand true.  Returns (matched,
-// succ index on which the atom has value want).
-func atomEdge(c *Expr, p Pat, want bool) (bool, int) {
-	a, pol := Truthy(c)
+// condMatcher says whether a (sub)condition is the atom or its negation:
+// matched, pol — the expression is true exactly when the atom has value pol.
+type condMatcher func(e *Expr) (bool, bool)
+
+// edgeFor decides which successor of a branch on condition c is taken when the
+// atom has value want.  Besides the direct case it sees through boolean phis
+// of short-circuit expressions and named boolean locals (x := a || b; x := a
+// && b; ok := cmp): for the edge on which the phi has value X, the operands
+// that are not the constant ¬X must all, when equal to X, fix the atom to
+// `want` — then that edge is an atom==want edge.
+func edgeFor(c *Expr, match condMatcher, want bool) (bool, int) {
+	a, pol0 := Truthy(c)
 	if a == nil {
 		return false, 0
 	}
-	succFor := func(condVal bool) int {
-		// successor taken when the (possibly negated) condition atom a has value condVal
-		if condVal == pol {
+	succWhenCondIs := func(v bool) int {
+		if v {
 			return 0
 		}
 		return 1
 	}
-	if p(a) {
-		return true, succFor(want)
+	// direct
+	if m, p := match(a); m {
+		// a true ⇔ atom == p ; cond true ⇔ a == pol0
+		condVal := (want == p) == pol0
+		return true, succWhenCondIs(condVal)
 	}
 	if a.K == EPhi && len(a.Args) > 0 {
-		// phi false ⇒ operands that are not the constant true are false
-		// phi true  ⇒ operands that are not the constant false are true
-		all := true
-		n := 0
-		for _, op := range a.Args {
-			if IsConstBool(!want)(op) {
-				continue // this incoming edge cannot produce the value `want`
+		for _, X := range []bool{true, false} {
+			all := true
+			n := 0
+			for _, op := range a.Args {
+				if IsConstBool(!X)(op) {
+					continue // this incoming edge cannot give the phi the value X
+				}
+				if IsConstBool(X)(op) {
+					all = false // the phi can be X without the atom being involved
+					break
+				}
+				n++
+				m, p := match(op)
+				if !m {
+					// operand may itself be negated / compared with a constant
+					oa, opol := Truthy(op)
+					if oa == nil {
+						all = false
+						break
+					}
+					m2, p2 := match(oa)
+					if !m2 {
+						all = false
+						break
+					}
+					m, p = true, p2 == opol
+				}
+				_ = m
+				// op == X ⇔ atom == (X == p)
+				if (X == p) != want {
+					all = false
+					break
+				}
 			}
-			n++
-			oa, opol := Truthy(op)
-			if oa == nil || !opol || !p(oa) {
-				all = false
+			if all && n > 0 {
+				// phi == X ; cond true ⇔ phi == pol0
+				return true, succWhenCondIs(X == pol0)
 			}
-		}
-		if all && n > 0 {
-			return true, succFor(want)
 		}
 	}
 	return false, 0
+}
+
+func atomEdge(c *Expr, p Pat, want bool) (bool, int) {
+	return edgeFor(c, func(e *Expr) (bool, bool) {
+		if e != nil && p(e) {
+			return true, true
+		}
+		return false, false
+	}, want)
 }
 
 // OnTrue: the edge on which the atom matched by p is truthy (true / non-nil).
@@ -87,17 +124,11 @@ func OnFalse(name string, p Pat) Barrier {
 	return Barrier{Name: name + "=false", Edge: func(c *Expr) (bool, int) { return atomEdge(c, p, false) }}
 }
 
-// OnCmp: the edge on which "lhs op rhs" holds (holds=true) or fails.
+// OnCmp: the edge on which "lhs op rhs" holds (holds=true) or fails; mirrored,
+// negated and phi-carried (named boolean / short-circuit) forms are recognised.
 func OnCmp(name string, lhs Pat, op token.Token, rhs Pat, holds bool) Barrier {
 	return Barrier{Name: name, Edge: func(c *Expr) (bool, int) {
-		m, pol := CmpMatch(c, lhs, op, rhs)
-		if !m {
-			return false, 0
-		}
-		if pol == holds {
-			return true, 0
-		}
-		return true, 1
+		return edgeFor(c, func(e *Expr) (bool, bool) { return CmpMatch(e, lhs, op, rhs) }, holds)
 	}}
 }
 
@@ -184,6 +215,210 @@ func condOf(i *ssa.If) *Expr {
 // reach explores fn's CFG from the start points without crossing barriers.
 // stopAt (optional) instructions are visited but not passed.
 func reach(starts []Point, bars []Barrier, stopAt func(ssa.Instruction) bool) *reachResult {
+	return reachH(starts, bars, stopAt, &helperCtx{always: map[*ssa.Function]int{}, implies: map[helperKey]int{}})
+}
+
+// ---------------------------------------------------------------------------
+// Unexported same-package helpers are seen through by SUMMARY, never by
+// continuing a path out of their body (so no infeasible call/return pairs):
+//   * a call to a helper that crosses the barriers on every path from its entry
+//     to any of its returns crosses the barriers;
+//   * branching on a helper's result: the edge taken for result value v is a
+//     barrier edge when every return of the helper that may yield v is
+//     unreachable from its entry without crossing the barriers (the helper's
+//     "v" result implies the guard — e.g. a nil error implies Sync succeeded,
+//     a true verdict implies every record was admissible).
+// Summaries are recursive through further helpers, depth-limited.
+
+type helperKey struct {
+	fn   *ssa.Function
+	idx  int
+	want bool // truthy (true / non-nil) or falsy
+}
+
+type helperCtx struct {
+	always  map[*ssa.Function]int // 0 unknown, 1 yes, 2 no, 3 in progress
+	implies map[helperKey]int
+	depth   int
+}
+
+// localHelper returns the callee when it is an unexported, non-recursive,
+// same-package function with a body (not a closure, not a method value).
+func localHelper(caller *ssa.Function, cc *ssa.CallCommon) *ssa.Function {
+	if cc == nil || cc.IsInvoke() {
+		return nil
+	}
+	h := cc.StaticCallee()
+	if h == nil || len(h.Blocks) == 0 || h.Parent() != nil {
+		return nil
+	}
+	if o := h.Origin(); o != nil {
+		h = o
+		if len(h.Blocks) == 0 {
+			return nil
+		}
+	}
+	top := TopLevel(caller)
+	if o := top.Origin(); o != nil {
+		top = o
+	}
+	if h == top {
+		return nil
+	}
+	hp, cp := fnPkg(h), fnPkg(top)
+	if hp == nil || cp == nil || hp != cp {
+		return nil
+	}
+	if token.IsExported(h.Name()) {
+		return nil
+	}
+	return h
+}
+
+func (hc *helperCtx) alwaysCrosses(h *ssa.Function, bars []Barrier) bool {
+	switch hc.always[h] {
+	case 1:
+		return true
+	case 2, 3:
+		return false
+	}
+	if hc.depth >= 3 {
+		return false
+	}
+	hc.always[h] = 3
+	hc.depth++
+	r := reachH(entryPoint(h), bars, nil, hc)
+	hc.depth--
+	ok := true
+	for _, in := range r.order {
+		if _, isRet := in.(*ssa.Return); isRet {
+			ok = false
+			break
+		}
+	}
+	if ok {
+		hc.always[h] = 1
+	} else {
+		hc.always[h] = 2
+	}
+	return ok
+}
+
+// resultImplies: every return of h whose result #idx may have truthiness
+// `want` is unreachable from h's entry without crossing bars.
+func (hc *helperCtx) resultImplies(h *ssa.Function, idx int, want bool, bars []Barrier) bool {
+	k := helperKey{h, idx, want}
+	switch hc.implies[k] {
+	case 1:
+		return true
+	case 2, 3:
+		return false
+	}
+	if hc.depth >= 3 {
+		return false
+	}
+	hc.implies[k] = 3
+	hc.depth++
+	defer func() { hc.depth-- }()
+	base := reachH(entryPoint(h), bars, nil, hc)
+	ok := true
+	nret := 0
+	for _, in := range base.order {
+		ret, isRet := in.(*ssa.Return)
+		if !isRet || idx >= len(ret.Results) {
+			continue
+		}
+		nret++
+		v := Desc(ret.Results[idx])
+		if sv := strip(v); sv != nil && sv.K == EConst {
+			truthy := !sv.IsNil
+			if sv.Val != nil && sv.Val.Kind() == constant.Bool {
+				truthy = constant.BoolVal(sv.Val)
+			}
+			if truthy == want {
+				ok = false // a return yielding exactly this value is reachable unguarded
+				break
+			}
+			continue
+		}
+		// returning the guard atom itself: "return check(x)" yields true only
+		// when check(x) is true — an implicit branch on the returned value
+		implied := false
+		for _, b := range bars {
+			if b.Edge == nil {
+				continue
+			}
+			if m, succ := b.Edge(v); m && ((want && succ == 0) || (!want && succ == 1)) {
+				implied = true
+				break
+			}
+		}
+		if implied {
+			continue
+		}
+		// non-constant result: it may have the wanted truthiness unless every
+		// bars-avoiding path to this return crosses the edge that fixes the
+		// value to the opposite truthiness (return err behind err != nil)
+		vs := v.String()
+		same := func(e *Expr) bool { return e != nil && e.String() == vs }
+		var fix Barrier
+		if want {
+			fix = OnFalse("result falsy", same) // crossing "value is falsy" means it cannot be truthy here
+		} else {
+			fix = OnTrue("result truthy", same)
+		}
+		r2 := reachH(entryPoint(h), append(append([]Barrier{}, bars...), fix), nil, hc)
+		if r2.visited[in] {
+			ok = false
+			break
+		}
+	}
+	if nret == 0 {
+		// every return is already behind the barriers
+		ok = true
+	}
+	if ok {
+		hc.implies[k] = 1
+	} else {
+		hc.implies[k] = 2
+	}
+	return ok
+}
+
+// helperResultEdge: cond (already described) tests the result of a local
+// helper; returns the helper, the result index, and which successor is taken
+// when the result is truthy.
+func helperResultEdge(caller *ssa.Function, cond *Expr) (*ssa.Function, int, int, bool) {
+	a, pol := Truthy(cond)
+	a = strip(a)
+	if a == nil {
+		return nil, 0, 0, false
+	}
+	idx := 0
+	call := a
+	if a.K == EExtract {
+		idx = a.Idx
+		call = strip(a.X)
+	}
+	if call == nil || call.K != ECall {
+		return nil, 0, 0, false
+	}
+	cl, ok := call.V.(*ssa.Call)
+	if !ok {
+		return nil, 0, 0, false
+	}
+	h := localHelper(caller, &cl.Call)
+	if h == nil {
+		return nil, 0, 0, false
+	}
+	truthySucc := 0
+	if !pol {
+		truthySucc = 1
+	}
+	return h, idx, truthySucc, true
+}
+
+func reachH(starts []Point, bars []Barrier, stopAt func(ssa.Instruction) bool, hc *helperCtx) *reachResult {
 	r := &reachResult{prev: map[ssa.Instruction]ssa.Instruction{}, visited: map[ssa.Instruction]bool{}}
 	type item struct {
 		p    Point
@@ -232,6 +467,13 @@ func reach(starts []Point, bars []Barrier, stopAt func(ssa.Instruction) bool) *r
 					break
 				}
 			}
+			if !crossed && len(bars) > 0 {
+				if cl, ok := in.(*ssa.Call); ok {
+					if h := localHelper(in.Parent(), &cl.Call); h != nil && hc.alwaysCrosses(h, bars) {
+						crossed = true
+					}
+				}
+			}
 			if crossed {
 				break
 			}
@@ -241,6 +483,24 @@ func reach(starts []Point, bars []Barrier, stopAt func(ssa.Instruction) bool) *r
 				switch t := in.(type) {
 				case *ssa.If:
 					cond := condOf(t)
+					// when the incoming edge is known and the condition is (a negation
+					// of) a phi of this block, match barriers against the operand that
+					// actually flows in on this path
+					if pred >= 0 {
+						if ph := condPhi(t); ph != nil && pred < len(ph.Edges) {
+							e := Desc(ph.Edges[pred])
+							v := t.Cond
+							for {
+								u, ok := v.(*ssa.UnOp)
+								if !ok || u.Op != token.NOT {
+									break
+								}
+								e = &Expr{K: EUn, Op: token.NOT, X: e}
+								v = u.X
+							}
+							cond = e
+						}
+					}
 					// a branch on a boolean phi of this very block (x := a || b; if x):
 					// when we know the incoming edge and its phi operand is a
 					// constant, only the consistent successor is feasible
@@ -264,6 +524,13 @@ func reach(starts []Point, bars []Barrier, stopAt func(ssa.Instruction) bool) *r
 								if m, which := b.Edge(cond); m && which == k {
 									blocked = true
 									break
+								}
+							}
+						}
+						if !blocked && len(bars) > 0 {
+							if h, idx, truthySucc, ok := helperResultEdge(in.Parent(), cond); ok {
+								if hc.resultImplies(h, idx, k == truthySucc, bars) {
+									blocked = true
 								}
 							}
 						}
@@ -437,7 +704,36 @@ func (c *Ctx) unguarded(target ssa.Instruction, bars []Barrier, top *ssa.Functio
 		return false, ""
 	}
 	tr := c.trail(r, target)
-	if fn == top || fn.Parent() == nil {
+	if fn == top {
+		return true, tr
+	}
+	if fn.Parent() == nil {
+		// target sits in an unexported helper of top: it is guarded when every
+		// call site of the helper inside top's scope is
+		if TopLevel(fn) != TopLevel(top) {
+			var sites []ssa.Instruction
+			for _, g := range scopeFuncs(top) {
+				if g == fn {
+					continue
+				}
+				for _, b := range g.Blocks {
+					for _, in := range b.Instrs {
+						if cl, ok := in.(*ssa.Call); ok && localHelper(g, &cl.Call) == fn {
+							sites = append(sites, in)
+						}
+					}
+				}
+			}
+			if len(sites) == 0 {
+				return true, tr
+			}
+			for _, s := range sites {
+				if ug, t2 := c.unguarded(s, bars, top); ug {
+					return true, t2 + "⇒helper:" + tr
+				}
+			}
+			return false, ""
+		}
 		return true, tr
 	}
 	sites := closureSites(fn)
@@ -465,11 +761,32 @@ func (c *Ctx) MustCross(rule string, fn *ssa.Function, what string, target func(
 	for _, b := range bars {
 		bn = append(bn, b.Name)
 	}
-	for _, f := range WithAnons(fn) {
+	// Targets are looked for in fn and its closures.  Only when none is there —
+	// the anchored construct was moved wholesale into an unexported helper —
+	// are fn's helpers searched (a helper's own, unrelated instances of the
+	// construct must not be attributed to fn).
+	scope := WithAnons(fn)
+	own := false
+	for _, f := range scope {
+		for _, b := range f.Blocks {
+			for _, in := range b.Instrs {
+				if target(in) {
+					own = true
+				}
+			}
+		}
+	}
+	if !own {
+		scope = scopeFuncs(fn)
+	}
+	for _, f := range scope {
 		for _, b := range f.Blocks {
 			for _, in := range b.Instrs {
 				if !target(in) {
 					continue
+				}
+				if _, isRet := in.(*ssa.Return); isRet && TopLevel(f) != TopLevel(fn) {
+					continue // a helper's return is not fn's
 				}
 				n++
 				key := fmt.Sprintf("%s|%s|%s|%s", rule, fnKey(fn), what, strings.Join(bn, ","))
@@ -518,9 +835,9 @@ func (c *Ctx) MustCrossFrom(rule string, fn *ssa.Function, what string, from fun
 				r := reach([]Point{pointAfter(in)}, bars, nil)
 				bad := false
 				for _, t := range r.order {
-					if target(t) {
+					if hit, ok := hitIn(t, target, bars); ok {
 						bad = true
-						c.violation(rule, key, instrPos(t), fmt.Sprintf("%s: from %s reaches %s without crossing {%s}; path %s", what, c.P.pos(instrPos(in)), c.P.pos(instrPos(t)), strings.Join(bn, " | "), c.trail(r, t)))
+						c.violation(rule, key, instrPos(hit), fmt.Sprintf("%s: from %s reaches %s without crossing {%s}; path %s", what, c.P.pos(instrPos(in)), c.P.pos(instrPos(hit)), strings.Join(bn, " | "), c.trail(r, t)))
 						break
 					}
 				}
@@ -756,9 +1073,9 @@ func (c *Ctx) AfterEdge(rule string, fn *ssa.Function, what string, edge Barrier
 		r := reach([]Point{pt}, bars, nil)
 		bad := false
 		for _, t := range r.order {
-			if target(t) {
+			if hit, ok := hitIn(t, target, bars); ok {
 				bad = true
-				c.violation(rule, key, instrPos(t), fmt.Sprintf("%s: after edge %s (block at %s) reaches %s without crossing {%s}; path %s", what, edge.Name, c.P.pos(instrPos(pt.B.Instrs[0])), c.P.pos(instrPos(t)), strings.Join(bn, " | "), c.trail(r, t)))
+				c.violation(rule, key, instrPos(hit), fmt.Sprintf("%s: after edge %s (block at %s) reaches %s without crossing {%s}; path %s", what, edge.Name, c.P.pos(instrPos(pt.B.Instrs[0])), c.P.pos(instrPos(hit)), strings.Join(bn, " | "), c.trail(r, t)))
 				break
 			}
 		}
@@ -820,6 +1137,7 @@ func DecisionTable(start Point, atoms []CmpAtom, outcome func(ssa.Instruction) s
 	res := make([]string, 1<<n)
 	for row := 0; row < 1<<n; row++ {
 		p := start
+		path := []*ssa.BasicBlock{p.B}
 		steps := 0
 		for {
 			steps++
@@ -841,29 +1159,140 @@ func DecisionTable(start Point, atoms []CmpAtom, outcome func(ssa.Instruction) s
 			switch t := in.(type) {
 			case *ssa.Jump:
 				p = Point{p.B.Succs[0], 0}
+				path = append(path, p.B)
 			case *ssa.If:
-				cond := condOf(t)
-				matched := false
-				for ai, a := range atoms {
-					if m, pol := CmpMatch(cond, a.Lhs, a.Op, a.Rhs); m {
-						val := row&(1<<ai) != 0
-						// condition true exactly when (atom == pol)
-						if val == pol {
-							p = Point{p.B.Succs[0], 0}
-						} else {
-							p = Point{p.B.Succs[1], 0}
-						}
-						matched = true
-						break
-					}
+				val, why := evalBoolOnPath(t.Cond, path, atoms, row, 0)
+				if why != "" {
+					return nil, why
 				}
-				if !matched {
-					return nil, "branch tests something other than the declared atoms: " + trunc(cond.String(), 160)
+				if val {
+					p = Point{p.B.Succs[0], 0}
+				} else {
+					p = Point{p.B.Succs[1], 0}
 				}
+				path = append(path, p.B)
 			default:
 				return nil, "reached a function exit before an outcome"
 			}
 		}
 	}
 	return res, ""
+}
+
+// evalBoolOnPath evaluates a boolean SSA value under an assignment of the
+// comparison atoms, resolving phis (named boolean locals, && / ||) by the
+// block the walked path came from.
+func evalBoolOnPath(v ssa.Value, path []*ssa.BasicBlock, atoms []CmpAtom, row int, depth int) (bool, string) {
+	if depth > 12 {
+		return false, "condition too deep"
+	}
+	switch x := v.(type) {
+	case *ssa.Const:
+		if x.Value != nil && x.Value.Kind() == constant.Bool {
+			return constant.BoolVal(x.Value), ""
+		}
+	case *ssa.UnOp:
+		if x.Op == token.NOT {
+			b, why := evalBoolOnPath(x.X, path, atoms, row, depth+1)
+			return !b, why
+		}
+	case *ssa.Phi:
+		// find the phi's block on the path (last occurrence) and the block before it
+		for i := len(path) - 1; i >= 1; i-- {
+			if path[i] != x.Block() {
+				continue
+			}
+			for k, pr := range x.Block().Preds {
+				if pr == path[i-1] && k < len(x.Edges) {
+					return evalBoolOnPath(x.Edges[k], path[:i], atoms, row, depth+1)
+				}
+			}
+		}
+		return false, "phi operand cannot be resolved on the walked path"
+	case *ssa.BinOp:
+		e := Desc(x)
+		for ai, a := range atoms {
+			if m, pol := CmpMatch(e, a.Lhs, a.Op, a.Rhs); m {
+				val := row&(1<<ai) != 0
+				return val == pol, ""
+			}
+		}
+		return false, "branch tests something other than the declared atoms: " + trunc(e.String(), 160)
+	}
+	return false, "branch tests something other than the declared atoms: " + trunc(Desc(v).String(), 160)
+}
+
+// ---------------------------------------------------------------------------
+// Targets inside unexported same-package helpers
+
+// scopeFuncs: fn, its closures, and the local helpers they call (transitively,
+// depth ≤ 2), with their closures.
+func scopeFuncs(fn *ssa.Function) []*ssa.Function {
+	seen := map[*ssa.Function]bool{}
+	var out []*ssa.Function
+	var add func(f *ssa.Function, depth int)
+	add = func(f *ssa.Function, depth int) {
+		for _, g := range WithAnons(f) {
+			if seen[g] {
+				continue
+			}
+			seen[g] = true
+			out = append(out, g)
+			if depth >= 2 {
+				continue
+			}
+			for _, b := range g.Blocks {
+				for _, in := range b.Instrs {
+					if cl, ok := in.(*ssa.Call); ok {
+						if h := localHelper(g, &cl.Call); h != nil && !seen[h] {
+							add(h, depth+1)
+						}
+					}
+				}
+			}
+		}
+	}
+	add(fn, 0)
+	return out
+}
+
+// helperHasTarget: some instruction matching target (returns excluded: a
+// helper's return is not the caller's) is reachable from h's entry without
+// crossing bars, directly or through further helpers.
+func helperHasTarget(h *ssa.Function, target func(ssa.Instruction) bool, bars []Barrier, depth int) (ssa.Instruction, bool) {
+	if depth > 2 {
+		return nil, false
+	}
+	r := reach(entryPoint(h), bars, nil)
+	for _, in := range r.order {
+		if _, isRet := in.(*ssa.Return); isRet {
+			continue
+		}
+		if target(in) {
+			return in, true
+		}
+		if cl, ok := in.(*ssa.Call); ok {
+			if g := localHelper(h, &cl.Call); g != nil {
+				if t, ok := helperHasTarget(g, target, bars, depth+1); ok {
+					return t, true
+				}
+			}
+		}
+	}
+	return nil, false
+}
+
+// hitIn: t matches target, or t calls a local helper in which a target is reachable.
+func hitIn(t ssa.Instruction, target func(ssa.Instruction) bool, bars []Barrier) (ssa.Instruction, bool) {
+	if target(t) {
+		return t, true
+	}
+	if cl, ok := t.(*ssa.Call); ok {
+		if h := localHelper(t.Parent(), &cl.Call); h != nil {
+			if in, ok := helperHasTarget(h, target, bars, 0); ok {
+				return in, true
+			}
+		}
+	}
+	return nil, false
 }
